@@ -382,6 +382,16 @@ def c12_corpus(seed, tier):
     alpha = [0, 3, 6, 9, 10, -3]
     seqs = list(itertools.product(alpha, repeat=4))
     seqs += [(c, d, 0, e, f) for c in (3, 6, 9) for d in (3, 6, 10) for e in (3, 6, 10, -3, -6) for f in (3, 6, 9, 12, 14, 20)]
+    # deltas whose first differences agree mod 2^32 but not as integers (x - y = y - z + 2^32): the stuck test takes
+    # its differences in 32-bit two's complement, so the third measurement is stuck
+    for lead in ((), (7,), (7, 19)):
+        for _ in range(3 if tier == "quick" else 40):
+            y = -(1 << 30) + rng.randrange(-1000, 1000)
+            x = (1 << 30) + rng.randrange(1, 1 << 20)
+            z = 2 * y - x + (1 << 32)
+            if -(1 << 31) <= z < (1 << 31) and z != 0:
+                seqs.append(tuple(lead) + (x, y, z))
+                seqs.append(tuple(lead) + (-x, -y, -z))
     if tier != "quick":
         seqs += list(itertools.product([0, 3, 6, 9, 10, -3, 12, (1 << 31) - 1, -(1 << 31)], repeat=5))
     tail = [17, 29, 41, 59, 73, 97, 113, 131, 157, 181, 211, 239, 263, 293]
@@ -794,6 +804,18 @@ def block_alg_corpus(kind, seed, tier, n_unit_words, long_words, salt):
             ops.append({"op": nat, "g": 1, "n": n})
             left -= n
         S.case("%s long run %d" % (kind, r), ops, weight=long_words + 300)
+    # volume: data-dependent faults with a probability around 2^-16 per word need a few hundred thousand words
+    bulk = {"IsaacRng": (14, 20480), "Isaac64Rng": (14, 20480), "Hc128Rng": (14, 8192)}[kind] if tier == "quick" else \
+           {"IsaacRng": (56, 40960), "Isaac64Rng": (56, 40960), "Hc128Rng": (56, 32768)}[kind]
+    for r in range(bulk[0]):
+        sd = [rng.getrandbits(8) for _ in range(32)]
+        ops = [{"op": "from_seed", "g": 1, "kind": kind, "seed": sd}]
+        left = bulk[1]
+        while left > 0:
+            n = min(left, 1024)
+            ops.append({"op": nat, "g": 1, "n": n})
+            left -= n
+        S.case("%s bulk run %d" % (kind, r), ops, weight=bulk[1] + 300)
     return S
 
 
@@ -1063,6 +1085,42 @@ def c10_corpus(seed, tier, node_paths_by_kind):
             ops += [{"op": "from_seed", "g": 5, "kind": kind, "seed": sd}, {"op": "from_seed", "g": 6, "kind": kind, "seed": sd2}, {"op": "eq", "a": 5, "b": 6}]
             ops += lockstep([("next_u64", 0), ("fill_bytes", 11)] + ([("jump", 0), ("next_u64", 0)] if kind in XO_JUMP else []), [5, 6])
             S.case("%s clone/eq #%d" % (kind, r), ops)
+    # B2. plain generators: pairs of states that differ in exactly one word (low bit, high bit), or in two adjacent
+    # words with the same wrapping sum resp. the same xor: an == that skips a word or compares a digest of the
+    # words calls them equal, and the lock-step run then shows the difference
+    for kind in list(XO) + ["SplitMix64", "XorShiftRng"]:
+        L, wb = SEEDLEN[kind], WORDBYTES[kind]
+        nw, bits = L // wb, 8 * wb
+        mask = (1 << bits) - 1
+        for r in range(1 if tier == "quick" else 6):
+            ws = [rng.getrandbits(bits) | (1 << (bits - 2)) for _ in range(nw)]
+            variants = []
+            for i in range(nw):
+                for d in (1, 1 << (bits - 1)):
+                    v = list(ws)
+                    v[i] ^= d
+                    variants.append(("word %d bit" % i, v))
+                if nw > 1:
+                    j = (i + 1) % nw
+                    d = rng.getrandbits(bits - 1) | 1
+                    v = list(ws)
+                    v[i], v[j] = (v[i] + d) & mask, (v[j] - d) & mask
+                    variants.append(("words %d,%d same sum" % (i, j), v))
+                    v = list(ws)
+                    v[i], v[j] = v[i] ^ d, v[j] ^ d
+                    variants.append(("words %d,%d same xor" % (i, j), v))
+                    # word differences (xor) that add up to 0 mod 2^w: the top bit twice; d and -d; all ones and 1
+                    for di, dj in ((1 << (bits - 1), 1 << (bits - 1)), (d, (-d) & mask), (mask, 1)):
+                        v = list(ws)
+                        v[i], v[j] = v[i] ^ di, v[j] ^ dj
+                        variants.append(("words %d,%d differences adding up to 0" % (i, j), v))
+            enc = lambda v: [b for w in v for b in w.to_bytes(wb, "little")]
+            ops = []
+            for name, v in variants:
+                ops += [{"op": "from_seed", "g": 1, "kind": kind, "seed": enc(ws)}, {"op": "from_seed", "g": 2, "kind": kind, "seed": enc(v)},
+                        {"op": "eq", "a": 1, "b": 2}]
+                ops += lockstep([(native_op(kind), 0), ("next_u64", 0)] + ([("next_u64", 0)] * 3 if nw > 4 else []), [1, 2])
+            S.case("%s pairs one word / same sum / same xor apart #%d" % (kind, r), ops)
     # C. bare cores
     for kind in ("Hc128Core", "IsaacCore", "Isaac64Core"):
         for r in range(2 if tier == "quick" else 10):
@@ -1299,7 +1357,7 @@ def c19_corpus(seed, tier, scheds):
             solo.append(ctor(g, 10 + g) + [{"op": native_op(kind[g]), "g": 10 + g, "n": N, "role": "twin", "of": g}])
             if kind[g] == "SplitMix64":
                 solo.append(ctor(g, 20 + g) + [{"op": "next_u32", "g": 20 + g, "n": N, "role": "twin32", "of": g}])
-        ops.append({"op": "bg_start", "threads": 2, "kinds": [k for k in {k1, k2} if k != "JitterRng"] or ["Xoshiro256PlusPlus"]})
+        ops.append({"op": "bg_start", "threads": 2, "kinds": sorted({k1, k2})})
         cnt = {1: 0, 2: 0}
         for (g, t, what) in sc:
             if what == "new":
@@ -1329,7 +1387,8 @@ def c18_corpora(seed, tier):
     for c in c04_corpus(seed, "quick").cases[:6]:
         alg.case(c["label"], c["ops"], c["weight"])
     for kind in ("Hc128Rng", "IsaacRng", "Isaac64Rng"):
-        for c in block_alg_corpus(kind, seed, "quick", 32 if kind == "Hc128Rng" else 256, 600, 18).cases[-7:]:
+        bc = block_alg_corpus(kind, seed, "quick", 32 if kind == "Hc128Rng" else 256, 600, 18).cases
+        for c in [x for x in bc if "bulk" not in x["label"]][-7:] + [x for x in bc if "bulk" in x["label"]][:1]:
             alg.case(c["label"], c["ops"], c["weight"])
     for c in c09_corpus(seed, "quick").cases:
         if "seed_from_u64" in c["label"] or c["label"].startswith("Xo") or "XorShift" in c["label"]:
